@@ -241,11 +241,14 @@ public:
         std::fesetround(rounding_mode);
         // Boost returns a NaN bound for the root of an infinite bound, which
         // min / max / comparisons downstream would silently drop
-        if (std::isnan(i.upper()) && a.upper() == INFINITY) {
-            i = I(i.lower(), INFINITY);
-        }
-        if (std::isnan(i.lower()) && a.lower() == -INFINITY) {
-            i = I(-INFINITY, i.upper());
+        {
+            const float lo = (std::isnan(i.lower()) && a.lower() == -INFINITY)
+                ? -INFINITY : i.lower();
+            const float hi = (std::isnan(i.upper()) && a.upper() == INFINITY)
+                ? INFINITY : i.upper();
+            if (!std::isnan(lo) && !std::isnan(hi)) {
+                i = I(lo, hi);
+            }
         }
 
         // We can only take odd nth roots on negative values
